@@ -451,6 +451,24 @@ func checkLigationTerms(c *Ctx, rl *ssa.Function, recGos []*ssa.Go) {
 			c.undecided("TERM-LIGATE", "extension", g.Pos(), "the new seed is not a visible Fragment literal: "+short(sd.String()))
 			continue
 		}
+		// a pool whose elements carry more than a Fragment's three fields (overhangs of the other orientation
+		// worked out beforehand, say): what those further fields hold is not followed
+		further := ""
+		for _, t := range []*Term{sq, fo, ro, parseOrNil(pc.String())} {
+			if t == nil {
+				continue
+			}
+			t.walk(func(x *Term) {
+				if x.Op == "field" && x.Name != "Sequence" && x.Name != "ForwardOverhang" && x.Name != "ReverseOverhang" && x.Name != "Fragment" {
+					further = x.Name
+				}
+			})
+		}
+		if further != "" {
+			c.undecided("TERM-LIGATE", "extension", g.Pos(), "the new seed or its condition reads the field "+further+", which a Fragment does not have; what it holds is not followed")
+			sawFwd, sawFlip = true, true
+			continue
+		}
 		flipped := strings.Contains(sq.String(), RC(F(nw, "Sequence"))) || strings.Contains(ro.String(), "ReverseComplement")
 		listOK := unwrap(g.Call.Args[3]) == ssa.Value(rl.Params[3])
 		name, wantSq, wantRo, need := "forward extension", pre+F(nw, "Sequence")+")", F(nw, "ReverseOverhang"), fwdAtom
